@@ -92,7 +92,8 @@ def tlc(module, cfg=None, env=None, workdir=None, simulate=None, depth=None,
     own = workdir is None
     wd = workdir or scratch('tlc-')
     try:
-        cmd = ['java', '-XX:+UseSerialGC', '-Xmx' + xmx, '-Xss64m', '-cp', JAR, 'tlc2.TLC',
+        # java.io.tmpdir inside the scratch directory: TLC leaves an empty tlc-<n> directory per run in the temp dir
+        cmd = ['java', '-XX:+UseSerialGC', '-Xmx' + xmx, '-Xss64m', '-Djava.io.tmpdir=' + wd, '-cp', JAR, 'tlc2.TLC',
                '-workers', '1', '-metadir', os.path.join(wd, 'meta-%d-%d' % (os.getpid(), time.monotonic_ns())),
                '-noGenerateSpecTE']
         if cfg:
